@@ -66,10 +66,20 @@ def gen_cases(tier, seed):
                 nsh = 1
             ls = [la, lb][:nsh] + [int(rng.integers(0, 3)) for _ in range(max(0, nsh - 2))]
             shells, classes = bases.rand_basis(rng, ls, scale=1.2, Kmax=4 if la + lb < 8 else 3)
+            if rep % 3 == 1 and nsh == 2:
+                shells, classes = bases.window_pair(rng, la, lb)
             pts, q, qc = gen_charges(rng, shells)
             cases.append({"shells": shells, "points": pts, "charges": q,
                           "classes": classes + qc + ["l:%d,%d" % (la, lb), "nsh:%d" % nsh, "nq:%d" % len(q)],
                           "cost": len(q) ** 0.5 * sum((2 + a + b) ** 3 * len(x["e"]) * len(y["e"]) for x, a in zip(shells, ls) for y, b in zip(shells, ls))})
+    # screening-window sweep: high-l pairs at separations where exp(-mu R^2) runs through 1e-9 .. 1e-17
+    for (la, lb) in itertools.product((4, 5) if tier == "quick" else (3, 4, 5), repeat=2):
+        for t in range(20, 40, 2):
+            rng = bases.rng_for("C03", seed, tier, "window", la, lb, t)
+            shells, classes = bases.window_pair(rng, la, lb, tmin=t, tmax=t + 2)
+            mid = 0.5 * (np.array(shells[0]["c"]) + np.array(shells[1]["c"]))
+            pts = [[float(v) for v in mid], [float(v) for v in mid + rng.normal(size=3)]]
+            cases.append({"shells": shells, "points": pts, "charges": [1.0, -2.5], "classes": classes + ["q:between", "l:%d,%d" % (la, lb), "nsh:2", "nq:2", "window-sweep"], "cost": 60})
     return cases
 
 
